@@ -354,7 +354,7 @@ func (p *sparser) parsePrimary() (SExpr, error) {
 			// is(x, T) / as(x, T) / zero(T): second arg is a type
 			var args []SExpr
 			for !p.isOp(")") {
-				if (t.s == "is" || t.s == "as") && len(args) == 1 || (t.s == "zero" && len(args) == 0) || (t.s == "tid" && len(args) == 0) {
+				if (t.s == "is" || t.s == "as" || t.s == "errAs") && len(args) == 1 || (t.s == "zero" && len(args) == 0) || (t.s == "tid" && len(args) == 0) {
 					ty, err := p.parseTypeText(")")
 					if err != nil {
 						return nil, err
@@ -763,7 +763,7 @@ func (db *SpecDB) parseDecl(d *rawDecl) error {
 			c.Assumes = append(c.Assumes, cl)
 		case "modifies":
 			c.HasModif = true
-			for _, m := range strings.Split(body, ",") {
+			for _, m := range splitTopLevel(body) {
 				m = strings.TrimSpace(m)
 				if m != "" && m != "nothing" {
 					c.Modifies = append(c.Modifies, m)
@@ -902,4 +902,27 @@ func parseFuncHeader(c *Contract, rest string) error {
 		c.Key = name
 	}
 	return nil
+}
+
+
+// splitTopLevel splits on commas that are not nested in parentheses / brackets
+func splitTopLevel(s string) []string {
+	var out []string
+	d := 0
+	start := 0
+	for i := 0; i < len(s); i++ {
+		switch s[i] {
+		case '(', '[':
+			d++
+		case ')', ']':
+			d--
+		case ',':
+			if d == 0 {
+				out = append(out, s[start:i])
+				start = i + 1
+			}
+		}
+	}
+	out = append(out, s[start:])
+	return out
 }
